@@ -105,9 +105,28 @@ def build_ref(desc):
 # to the next inside a process (caches keyed by names, mutable defaults, memoised grids)
 # becomes a mismatch of the judged model.
 # --------------------------------------------------------------------------------------
-def sibling_desc(desc):
+def swapped_grid_kinds_desc(desc):
+    """Sibling whose continuous grids keep (start, stop, n) but swap linear <-> logarithmic
+    (anything memoised by the grid specification without its kind collides)."""
     import copy
 
+    sib = copy.deepcopy(desc)
+    n = 0
+    for _, sp in sib["states"] + sib["choices"]:
+        if sp["kind"] == "lin" and sp["start"] > 0 and sp["n"] >= 2:
+            sp["kind"] = "log"
+            n += 1
+        elif sp["kind"] == "log":
+            sp["kind"] = "lin"
+            n += 1
+    return sib if n else None
+
+
+def sibling_desc(desc, mode="bodies"):
+    import copy
+
+    if mode == "swap_grid_kinds":
+        return swapped_grid_kinds_desc(desc)
     sib = copy.deepcopy(desc)
     scalar = set(sib.get("scalar_functions") or ())
     for f in sib["functions"]:
@@ -130,10 +149,12 @@ def sibling_desc(desc):
     return sib
 
 
-def run_sibling(desc, *, solve=True, simulate=False, targets=None, n_agents=3, counters=None):
+def run_sibling(desc, *, solve=True, simulate=False, targets=None, n_agents=3, counters=None, mode="bodies"):
     """Build and run the sibling model; every failure is ignored (it is not under test)."""
     try:
-        sib = sibling_desc(desc)
+        sib = sibling_desc(desc, mode)
+        if sib is None:
+            return False
         ref = Ref(sib)
         model = dsl.build_lcm_model(sib)
         p = dsl.lcm_params(sib["params"])
